@@ -20,6 +20,8 @@ AREA_CHECKS = {
 areas = sys.argv[1:] or sorted(AREA_CHECKS)
 for a in areas:
     for diff in sorted(glob.glob(os.path.join(VERIF, "harmless", a, "hr*.diff"))):
+        if int(os.path.basename(diff)[2:-5]) < int(os.environ.get("HR_MIN", "1")):
+            continue
         label = "%s-%s" % (a, os.path.basename(diff)[:-5])
         r = subprocess.run([sys.executable, os.path.join(VERIF, "tools", "try_harmless.py"), diff, label] + AREA_CHECKS[a],
                            capture_output=True, text=True)
